@@ -66,7 +66,7 @@ def stopOk (source stop : String) : Bool :=
   | "twice" => stop == "nil,inshutdown"
   | _ => stop == "-"
 
-def judge (source : String) (nloops : Nat) (rest : List String) : Option (Unit Ã— String) :=
+def judge (source : String) (nloops : Nat) (multi : Bool) (rest : List String) : Option (Unit Ã— String) :=
     let line := " ".intercalate rest
     match (match line.splitOn " | " with
            | [head, body, ho] => some (head, body, some ho)
@@ -80,7 +80,7 @@ def judge (source : String) (nloops : Nat) (rest : List String) : Option (Unit Ã
       else
         let toks := ((body.splitOn " ").filter (Â· â‰  "")).map parseTok
         if toks.any (Â·.isNone) then some ((), "MISMATCH: unparsable token")
-        else match acceptTrace (source == "boot") (toks.filterMap id) with
+        else match acceptTrace (source == "boot") multi (toks.filterMap id) with
           | .ok a =>
             if !a.returned then some ((), "MISMATCH: Run never returned")
             else match ho with
@@ -100,8 +100,8 @@ def step (_ : Unit) (ws : List String) : Option (Unit Ã— String) :=
   match ws with
   | "life" :: _proto :: loops :: _rp :: _tk :: _n :: source :: _et :: _lb :: rest =>
     -- a Shutdown action returned from OnBoot: Run returns without creating any loop
-    judge source (if source == "boot" then 0 else loops.toNat?.getD 0) rest
-  | "clife" :: _proto :: loops :: _tk :: _n :: _mode :: _et :: rest => judge "client" (loops.toNat?.getD 0) rest
+    judge source (if source == "boot" then 0 else loops.toNat?.getD 0) (_proto == "both") rest
+  | "clife" :: _proto :: loops :: _tk :: _n :: _mode :: _et :: rest => judge "client" (loops.toNat?.getD 0) false rest
   | _ => some ((), "bad-op")
 
 def main : IO Unit := loop (fun _ => ()) step
